@@ -680,6 +680,21 @@ namespace logmessage {
             }
             [[nodiscard]] std::string formatMessage() const override;
         };
+        class InheritanceCycleRefused : public ConfigBase
+        {
+            static const loglevel level = loglevel::warning;
+            static const size_t errorCode = 40015;
+            std::string_view node_name;
+            std::string_view parent_name;
+        public:
+            InheritanceCycleRefused(LogLocationInfo loc, std::string_view node_name, std::string_view parent_name) :
+                ConfigBase(level, errorCode, std::move(loc)),
+                node_name(node_name),
+                parent_name(parent_name)
+            {
+            }
+            [[nodiscard]] std::string formatMessage() const override;
+        };
     }
     namespace linting
     {
